@@ -1,4 +1,4 @@
-\* mechanism as the code has it, larger bounds (3 queued messages), all topologies, no retrievals
+\* mechanism as the code has it, larger bounds (3 queued messages), topologies direct, partial, ghosts, no retrievals
 SPECIFICATION MCSpec
 CONSTANTS
   PullMax = 3
@@ -6,7 +6,7 @@ CONSTANTS
   Ghosts <- OneGhost
   MsgBound = 3
   QBound = 2
-  MCTopos <- AllTopos
+  MCTopos <- NoRelayTopos
   AsIs = TRUE
 CONSTRAINT Bound
 ACTION_CONSTRAINT NoRetrieve
